@@ -291,6 +291,20 @@ fn process_deposits_for_single_pool<C: ContentAddrStore>(
         .fold(0u128, |a, b| a.saturating_add(b));
 
     let total_mtsqrt = total_lefts.sqrt().saturating_mul(total_rights.sqrt());
+    // every deposit's weight is rounded down on its own, so the weights can add up to more than the weight of the total
+    // (two deposits of (4, 4): 4 + 4 against isqrt(8) * isqrt(8) = 4): divide by whichever is larger, so that the
+    // deposits of a block are never handed more liquidity tokens than the pool records for them
+    let sum_mtsqrt = deposits
+        .iter()
+        .map(|tx| {
+            tx.outputs[0]
+                .value
+                .0
+                .sqrt()
+                .saturating_mul(tx.outputs[1].value.0.sqrt())
+        })
+        .fold(0u128, |a, b| a.saturating_add(b));
+    let total_mtsqrt = total_mtsqrt.max(sum_mtsqrt);
     // main logic here
     let total_liqs = if let Some(mut pool_state) = state.pools.get(pool) {
         let liq = pool_state.deposit(total_lefts, total_rights);
